@@ -63,9 +63,10 @@ def sensitivity(argv) -> int:
             for cid in check_ids:
                 r = _run_check(cid, os.path.join(scratch, "src"))
                 sigs = [l.strip() for l in r.stdout.splitlines() if l.strip().startswith("signature:")]
-                verdict = {0: "MISSED", 1: "caught", 2: "harness-error"}.get(r.returncode, f"exit {r.returncode}")
+                really = r.returncode == 1 and f"VIOLATION property={cid}" in r.stdout  # (exit 1 alone could be a crashed interpreter)
+                verdict = "caught" if really else {0: "MISSED", 1: "exit 1 without a VIOLATION line", 2: "harness-error"}.get(r.returncode, f"exit {r.returncode}")
                 print(f"{name}: {cid} {verdict} {sigs[:2]}")
-                if r.returncode == 1:
+                if really:
                     caught_by.append(cid)
                 else:
                     tails.append(r.stdout[-600:] + "\n--- stderr head ---\n" + r.stderr[:1500] + "\n--- stderr tail ---\n" + r.stderr[-800:])
